@@ -22,7 +22,7 @@ type c09Case struct {
 }
 
 var c09ValuePrograms = []string{
-	"0", "-7", "4611686018427387904", "1.5", "-0.25", "0.0", "1000000000000000000000.5", "''", "'a\"b\\'c'", "'中文\\n\\t'", "'\x1e'", "null", "true",
+	"0", "-7", "4611686018427387904", "9007199254740993", "-9007199254740993", "9223372036854775807", "[9007199254740993, 1]", "{'k': 9007199254740995}", "1.5", "-0.25", "0.0", "1000000000000000000000.5", "''", "'a\"b\\'c'", "'中文\\n\\t'", "'\x1e'", "null", "true",
 	"[]", "[1]", "[1, 'a', null, 1.5]", "[[1], [[2]], []]", "{}", "{'a': 1}", "{'a': {'b': {'c': [1]}}}", "{'k': [1, {'j': null}]}", "{1: 2, 1.5: 3}",
 	"func f(){}", "func f(a){ a + 1 }", "func f(a, b){ if a { return b }; a }", "func f(){ 2d6 + b }", "func f(a){a}; [f, f]",
 	"&c = 1 + 1; &c", "&c = 2d6k1; &c", "&c = x; &c.a = 1; &c.b = [1]; &c", "&c = ''; &c", "[&c]", "&c = 1; {'k': &c}",
@@ -33,7 +33,7 @@ var c09ValuePrograms = []string{
 }
 
 var c09Stmts = []string{
-	"x = 5", "y = [1,2,3]", "z = {'a': 1, 'b': [2]}", "func f(a){ a + x }", "func g(){ 2d6 }", "&c = x + 2d6", "&c.k = 3", "y.push(4)", "z.a = z.a + 1",
+	"x = 5", "n9 = 9007199254740993", "n9 % 10", "n9 == 9007199254740993", "y = [1,2,3]", "z = {'a': 1, 'b': [2]}", "func f(a){ a + x }", "func g(){ 2d6 }", "&c = x + 2d6", "&c.k = 3", "y.push(4)", "z.a = z.a + 1",
 	"w = y", "w.push(9)", "x = x + f(2)", "x = x + g()", "c + c", "s = 'q\"' + `{x}`", "x = 1.5", "n = null", "y[0] = 'k'", "y = y + [x]", "t = z.b; t.push(1)",
 	"func h(a, b){ if a { return b }; a }", "x = h(1, 2) + h(0, 3)", "&d = c + 1", "d", "&c.k", "e = [f, g]", "e[0](1)", "p = ceil", "p(1.5)", "[x, y, z, c]", "z.b", "q = {'__proto__': z}; q.a", "&c = this.k + 1; c",
 }
